@@ -617,7 +617,13 @@ define_function(to_number)
 
 define_function(yr_math_abs)
 {
-  return_integer(llabs(integer_argument(1)));
+  int64_t i = integer_argument(1);
+
+  // llabs(INT64_MIN) is undefined behaviour; the absolute value is not representable.
+  if (i == INT64_MIN)
+    return_integer(YR_UNDEFINED);
+
+  return_integer(llabs(i));
 }
 
 define_function(count_range)
